@@ -69,8 +69,9 @@ Example data_override_example :
 Proof. vm_compute. split; reflexivity. Qed.
 
 (* ---------- what the correspondence check relies on ---------- *)
-(* The run-time oracle p_c04 (ChkX.v, clauses 5-9: events of the root program first and verbatim, leaf responses exactly, the instantiate
-   response, Ok replies carry the response of the leaf sub-message they answer, no reply => own data) accepts the model's own run of EVERY well-formed scenario, in every case
+(* The run-time oracle p_c04 (ChkX.v, clauses 5-10: events of the root program first and verbatim, leaf responses exactly, the instantiate
+   response, Ok replies carry the response of the leaf sub-message they answer, no reply => own data, the data returned is
+   the last one set among own data and the leaf reply handlers that ran) accepts the model's own run of EVERY well-formed scenario, in every case
    environment: an implementation that behaves exactly like the model is never flagged, and "agrees with the model"
    implies "satisfies the oracle's reading of C04".
    Premise [wf_scenario] (ExecOracle.v) is what the generator guarantees (harness/exec_common/src/gen.rs): in every
